@@ -59,7 +59,9 @@ MetricOptional == IdKeys
 (* Shapes and their images *)
 \* "Reent": a value whose Display / sval impl emits another event through the same sink
 \* while it is being rendered; its image is its Display text
-TextAtoms == {"Str", "StrCtl", "StrUni", "Reent", "EnumUnit", "Err", "ErrChain", "Level", "LevelText",
+\* "DispVal" / "DbgVal": a value captured through its Display / Debug impl only (what the
+\* as_display / as_debug capture modes hand to a sink); image: that text
+TextAtoms == {"Str", "StrCtl", "StrUni", "Reent", "DispVal", "DbgVal", "EnumUnit", "Err", "ErrChain", "Level", "LevelText",
               "IdTyped", "IdHex", "KindSpan", "KindMetric", "AggCount", "AggSum", "AggLast"}
 BigAtoms == {"U64Big", "I128", "U128"}
 FloatAtoms == {"F64", "NaN", "Inf"}
